@@ -113,7 +113,7 @@ def partLt (parts : Array (List Item)) (a b : Nat) : Bool :=
   | some x, some y => decide (x.prio < y.prio)
 
 /-- `partition.Index()` as maintained by the index assigner -/
-def indexOf (heap : Array Nat) (p : Nat) : Nat := (heap.toList.findIdx? (· == p)).getD 0
+def indexOf (heap : Array Nat) (p : Nat) : Nat := heap.toList.idxOf p
 
 /-- `NewPartitionedPriorityQueue`: push every partition -/
 def new (parts : Array (List Item)) : Q :=
@@ -150,5 +150,17 @@ def push (q : Q) (x : Item) : Q :=
 def delete (q : Q) (x : Item) : Q :=
   let parts := q.parts.setIfInBounds x.part ((q.parts.getD x.part []).erase x)
   { parts := parts, heap := refix parts q.heap x.part }
+
+/-- operation sequences (an item whose partition index addresses no partition makes the code panic before any
+change; the state is then unchanged) -/
+inductive Op where
+  | push (x : Item) | delete (x : Item) | pop
+
+def step (q : Q) : Op → Q
+  | .push x => if x.part < q.parts.size then push q x else q
+  | .delete x => if x.part < q.parts.size then delete q x else q
+  | .pop => (pop q).2
+
+def run (n : Nat) (ops : List Op) : Q := ops.foldl step (new (Array.replicate n []))
 
 end Rxn.PPQ
